@@ -76,6 +76,28 @@ func (t *Collection) reclaimMarkUpdate(nloc *nodeLoc,
 	return n
 }
 
+// Takes back the reclaim marks that an abandoned union/split/join left on the
+// cached nodes below nloc.  Those algorithms mark the nodes they replace
+// bottom-up as they go; when they fail half-way (I/O error) nothing was
+// replaced, and a mark left behind would let the next successful mutation
+// recycle a node that the new version still shares.
+func (t *Collection) reclaimUnmark(nloc *nodeLoc, reclaimMark *node) {
+	if nloc.isEmpty() {
+		return
+	}
+	n := nloc.Node()
+	if n == nil {
+		return
+	}
+	t.rootLock.Lock()
+	if n.next == reclaimMark {
+		n.next = nil
+	}
+	t.rootLock.Unlock()
+	t.reclaimUnmark(&n.left, reclaimMark)
+	t.reclaimUnmark(&n.right, reclaimMark)
+}
+
 // Marks the cached, still unmarked nodes below nloc as reclaimable.  Unlike
 // reclaimMarkUpdate the caller already holds rootLock.
 func (t *Collection) reclaimMarkAllUnlocked(nloc *nodeLoc, reclaimMark *node) {
